@@ -105,6 +105,13 @@ Section Ops.
     let* _ := verify_blind_sign E s pk header msgs cmsgs bf in
     Ok [].
 
+  (* blind::prepare_parameters, a public function of its own: message scalars and the combined generator set *)
+  Definition op_prep (msgs cmsgs : option (list bytes)) (gen_n blind_gen_n : nat) (spb api_id : option bytes)
+    : outcome (list bytes) :=
+    let* bf := opt_blind spb in
+    let* (ms, g) := prepare_parameters E msgs cmsgs gen_n blind_gen_n bf api_id in
+    Ok [serialize_scalars E ms; g1_enc P (g_p1 E g); serialize_g1 E (g_values E g)].
+
   Definition op_blindproofgen (pkb sigb : bytes) (header ph : option bytes)
              (msgs cmsgs : option (list bytes)) (idx cidx : option (list N)) (spb : option bytes)
              (rho : list (F S)) : outcome (list bytes) :=
